@@ -2,7 +2,9 @@
 # mutrun.sh <seed-name> <targets-comma> : mirsym only, on a scratch worktree with the seed applied (development helper)
 S=$1; T=$2; WT=/tmp/mutrun_$S
 rm -rf $WT; git -C /repo worktree prune; git -C /repo worktree add --detach -f $WT HEAD >/dev/null 2>&1 || exit 9
-git -C $WT apply /verif/seeded/$S/patch.diff || { echo APPLY-FAILED; exit 9; }
-python3 /verif/mirsym/mirdump.py $WT /tmp/mir/$S.mir /tmp/mir/target >/dev/null || exit 9
-python3-vt /verif/mirsym/runner.py --mir /tmp/mir/$S.mir --repo $WT --only $T --json /tmp/mir/$S.json "${@:3}"
+git -C $WT apply /verif/seeded/$S/patch.diff || { echo APPLY-FAILED; git -C /repo worktree remove --force $WT; exit 9; }
+mkdir -p /tmp/mir
+SQL=""; case "$T" in *sql_*) SQL=/tmp/mir/$S-sql.mir;; esac
+python3 /verif/mirsym/mirdump.py $WT /tmp/mir/$S.mir /tmp/mir/target $SQL >/dev/null || exit 9
+python3-vt /verif/mirsym/runner.py --mir /tmp/mir/$S.mir ${SQL:+--mir-sql $SQL} --repo $WT --only $T --json /tmp/mir/$S.json "${@:3}"
 git -C /repo worktree remove --force $WT
